@@ -1,6 +1,6 @@
 (** IPv4 / IPv6 labeled unicast NLRI (yabgp/message/attribute/nlri/labeled_unicast/__init__.py)
     and the MP_REACH / MP_UNREACH branches for SAFI 4.  Prefix octets as in YVpn (repaired
-    construct_prefix_v4 / construct_prefix_v6). *)
+    construct_prefix_v4 / construct_prefix_v6); label parser bounded to the route as in YVpn. *)
 From YV Require Import lib.Base gen.Consts model.YMp model.YLabel model.YVpn.
 
 Record lroute := { l_labels : list N; l_addr : N; l_len : N }.
@@ -34,7 +34,7 @@ Fixpoint parse_lu (v6 : bool) (fuel : nat) (d : bytes) : res (list plroute) :=
       | bitlen :: _ =>
           let nbl := ceil8 bitlen in
           let offset := nbl + 1 in
-          let labels := parse_labels (drop 1 d) in
+          let labels := parse_labels (slice 1 (N.to_nat offset) d) in
           let lbl := 3 * N.of_nat (length labels) in
           (* prefix_byte_len = nbl - lbl, prefix_mask = bitlen - 8 * lbl : both may be negative *)
           let pslice := if lbl <=? nbl then slice (N.to_nat (offset - (nbl - lbl))) (N.to_nat offset) d else [] in
